@@ -1,5 +1,5 @@
 import DoraModel.Wait.HmapLemmas4
-import DoraModel.Wait.MtxInv3
+import DoraModel.Wait.MtxReach
 /-!
 # C09 — Mutexes, conditions, joins and atomics keep their promises in every interleaving
 
@@ -82,7 +82,7 @@ theorem hmap_refines_partial {ep : Nat} {m : Map} {a : Nat → Option Nat} (hI :
 after `insert 16 ↦ 7` the table represents `{16 ↦ 7}` and satisfies `WInv` -/
 example : ∃ m', insert new 0 16 7 = .ok m' ∧ WInv 0 m' ∧ Repr m' (fun x => if x = 16 then some 7 else none) :=
   (hmap_refines_partial (winv_new 0) (a := fun _ => none)
-    (fun k v _ => ⟨fun h => by cases h, fun ⟨i, h, _⟩ => by simp [new] at h⟩) (Or.inl rfl) (by decide)).2.1 7
+    repr_new (Or.inl rfl) (by decide)).2.1 7
 
 /-- 8 inserts of 16-aligned addresses, 4 removes, 8 inserts of addresses ≡ 8 (mod 16): the DESIGN §8 sequence -/
 def witnessOps : List Op :=
@@ -141,7 +141,7 @@ theorem hmap_relocation {ep ep' : Nat} {m : Map} (hI : WInv ep m) (hep : m.gcEpo
 /-- non-vacuity: the table `{16 ↦ 7}` built under epoch 0, moved by `f k = k + 1024`, looked at under epoch 1 -/
 example : ∃ m, WInv 0 m ∧ m.gcEpoch ≠ 1 ∧ Lookup m 16 7 := by
   obtain ⟨m', h1, hw, hr⟩ := (hmap_refines_partial (winv_new 0) (a := fun _ => none)
-    (fun k v _ => ⟨fun h => by cases h, fun ⟨i, h, _⟩ => by simp [new] at h⟩) (Or.inl rfl) (show 1 < 16 by decide)).2.1 7
+    repr_new (Or.inl rfl) (show 1 < 16 by decide)).2.1 7
   refine ⟨m', hw, ?_, (hr 16 7 (by decide)).mp (by simp)⟩
   have : (insert new 0 16 7).toOption.map (·.gcEpoch) = some 0 := by decide
   rw [h1] at this; simp [Except.toOption] at this; omega
@@ -153,27 +153,6 @@ section mtx
 open Dora.Wait.Mtx
 
 variable {n : Nat} {s : State}
-
-theorem Reach.basic (hr : Reach n s) : Basic s := by
-  induction hr with
-  | init => exact ⟨by simp [init], by simp [init], by simp [init]⟩
-  | step _ ha ih => obtain ⟨pc, _, hst⟩ := accept_stepAt ha; exact basic_step ih hst
-
-theorem Reach.kinv (hr : Reach n s) : KInv s := by
-  induction hr with
-  | init =>
-    have : (List.replicate n PC.idle).countP holds = 0 := by
-      rw [List.countP_eq_zero]; intro a ha; rw [List.eq_of_mem_replicate ha]; simp [holds]
-    exact ⟨by simp [init, this], by simp [init, this]⟩
-  | step _ ha ih => obtain ⟨pc, hpc, hst⟩ := accept_stepAt ha; exact kinv_step ih hpc hst
-
-theorem Reach.rinv (hr : Reach n s) : RInv s := by
-  induction hr with
-  | init =>
-    constructor
-    · intro u hu; simp [init, List.getElem?_replicate] at hu
-    · intro t r u ht; simp [init, List.getElem?_replicate] at ht
-  | step hprev ha ih => obtain ⟨pc, hpc, hst⟩ := accept_stepAt ha; exact rinv_step hprev.basic ih hpc hst
 
 /-- "Critical sections run under the same mutex never overlap", for any number of threads and every
 interleaving: in every reachable state at most one thread is between a successful acquiring CAS
@@ -222,30 +201,17 @@ theorem notify_without_waiter_no_effect {t : Nat} {s' : State} {a : Act} :
   constructor
   · intro r hcw h
     rcases h with h | h <;> cases a <;> simp [stepAt, hcw] at h
-    all_goals (first | exact Or.inl h.symm | (obtain ⟨h1, h2⟩ := h; subst h1; exact Or.inr (by simpa using h2.symm)) | skip)
+    all_goals (first
+      | exact Or.inl h.symm
+      | (split at h
+         · rename_i h0; subst h0; simp at h; exact Or.inr h.symm
+         · cases h))
   · intro k all r hq h
     cases a <;> simp [stepAt, hq] at h
     all_goals (first | exact Or.inl h.symm | exact Or.inr h.symm | skip)
 
 /-! ### non-vacuity: a concrete run of the model (two threads contend for the mutex; the loser queues,
 sleeps, is popped and signalled by the owner's `unlock_op`, and acquires with `0→2`) -/
-
-def runTrace (s : State) : List Event → Option State
-  | [] => some s
-  | e :: rest => match accept s e with
-    | .ok s' => runTrace s' rest
-    | .error _ => none
-
-theorem Reach.run {s s' : State} (hr : Reach n s) : ∀ (es : List Event), runTrace s es = some s' → Reach n s' := by
-  intro es
-  induction es generalizing s with
-  | nil => intro h; simp [runTrace] at h; subst h; exact hr
-  | cons e rest ih =>
-    intro h
-    simp only [runTrace] at h
-    split at h
-    · rename_i s1 h1; exact ih (Reach.step hr h1) h
-    · cases h
 
 def demoTrace : List Event := [
   ⟨0, .call .lock⟩, ⟨0, .casW 0 (some 1)⟩,                                   -- thread 0 owns the mutex
@@ -285,7 +251,7 @@ example : ∃ s, Reach 2 s ∧ s.pcs[0]? = some (PC.jn1 .idle 1 false) := by
     exact ⟨s, Reach.init.run _ h, this⟩
 
 /-- hypothesis of `notify_without_waiter_no_effect`: `notify_one` on the fresh condition returns at once -/
-example : stepAt (init 1) 0 (PC.no0 .idle) (.loadCW 0) = .ok ((init 1).setPc 0 .idle) := by decide
+example : (stepAt (init 1) 0 (PC.no0 .idle) (.loadCW 0)).toOption = some ((init 1).setPc 0 .idle) := by decide
 
 end mtx
 end Dora.Wait.C09
